@@ -131,7 +131,11 @@ func genServer(jobs chan<- job, rng *hx.Rand, thorough bool) {
 	}
 }
 
-const mutateFlag = uint64(1) << 60
+const (
+	mutateFlag = uint64(1) << 60
+	emptyFlag  = uint64(1) << 59 // the body is empty (malformed stream)
+	truncFlag  = uint64(1) << 58 // the body breaks off after two thirds (malformed stream)
+)
 
 func randOpt(rng *hx.Rand, valid []string, junk []string) ostr {
 	if rng.Chance(1, 3) {
